@@ -14,12 +14,14 @@ g("IdentifySection", ["IdentifySection", "GetSectionName"], unwind=14, replace_c
   bounded="section nesting depth <= 5; qualifiers '', PARENT, PARENT0..9, S0..S4 (strings concrete up to one digit)")
 g("ExpandStrSymbol", ["ExpandStrSymbol"], unwind=44, unwindset=["@ExpandStrSymbol:ExpandStrSymbol:last:3"], flags=["--slice-formula"], defs_extra=["-DVERIF_EXPAND"], drop_unused=True, replace_calls=["EvalStrStringExpressionWithResult:verif_EvalStrStringExpressionWithResult"],
   bounded="destination buffer of 16 bytes, literal text of 0..24 characters in front of one {expression}")
+g("PUSHV_POPV", ["PushSymbol", "PopSymbol"], unwind=18, defs_extra=["-DVERIF_PUSHV"], drop_unused=True, replace_calls=["ExpandStrSymbol:verif_ExpandStrSymbol"],
+  bounded="one symbol, the default stack, two nested PUSHV")
 GROUPS.append(G("sym_CodePPSyms", "harness/C10/h_asmallg.c", "h_CodePPSyms", enforce=[], link=["asmdef.c", "tempresult.c", "strcomp.c"], stubs=["stubs/gerr.c"], unwind=12, timeout=600,
                 dfcc=False, drop_unused=True, object_bits=12, defs=["-DVERIF_PPSYMS"], functions=["CodePPSyms", "CodePPSyms_SearchSym"],
                 bounded="argument list of three names (first and third optionally section-qualified), empty FORWARD/PUBLIC/GLOBAL lists"))
 TRUSTED_BASE = ["message/file-name stubs", "FreeRelocs stub (no relocations)"]
 ASSUMPTIONS = ["integer or float values (string constants compared by as_nonz_dynstr_cmp are not explored)", "JmpErrors <= ErrorCount (established by WrXErrorPos, see C02)"]
-NOT_COVERED = ["balanced tree (trees.c)", "GetSymSection qualifier splitting ([..] parsing)", "CodeSECTION/PUBLIC/GLOBAL/FORWARD list construction"]
+NOT_COVERED = ["balanced tree (trees.c)", "GetSymSection qualifier splitting ([..] parsing)", "CodeSECTION / ENDSECTION (section stack construction)", "temporary symbols ($$, +/-, composed .name)", "case folding (-U)"]
 EXPLANATION = ("Kernel only: SymbolAdder decides constant vs variable vs redefinition and when another pass is requested; the section walk and "
                "temporary-symbol counters follow; the run-level statement (every reference resolves as the manual prescribes) is an induction "
                "over these per-call facts and the unverified tree/section code.")
@@ -29,7 +31,7 @@ MANIFEST = dict(
     text="Contracts on the kernel of symbol handling in asmpars.c: SymbolAdder (a constant defined twice is an error and keeps its value; constant "
          "and variable cannot change kind; a variable is replaced; usage carried), FindNode (innermost enclosing section first, then outward to "
          "global, wrong-kind entries do not hide outer ones, FORWARD names stay local in early passes) and LookupSymbol (value, used flag, "
-         "forward/questionable flags). Also IdentifySection (name[], PARENTn, section names), CodePPSyms (PUBLIC/GLOBAL/FORWARD lists: each argument its own destination section) and ExpandStrSymbol (bounded). The symbol tree itself is an oracle; qualifiers, PUBLIC/GLOBAL redirection, temporary symbols and "
+         "forward/questionable flags). Also PushSymbol/PopSymbol (PUSHV/POPV: last in, first out, empty stack is an error), IdentifySection (name[], PARENTn, section names), CodePPSyms (PUBLIC/GLOBAL/FORWARD lists: each argument its own destination section) and ExpandStrSymbol (bounded). The symbol tree itself is an oracle; qualifiers, PUBLIC/GLOBAL redirection, temporary symbols and "
          "PUSHV/POPV are named unverified.",
     note="Bounded: section nesting depth <= 2, one fixed plain name. Trusted: SearchTree oracle, message stubs, no relocations.",
 )
